@@ -179,11 +179,15 @@ def judge(ctx, spec, d, path, model=True):
     want = expected(before)
     ds = S.diff(want, back, S.tol_precision(d), ignore=IGNORE)
     seen = set()
+    total = ctx.__dict__.setdefault("_c01_reported", {})
     for (p, kind, a, b) in ds:
         cls = _class_of(p, kind)
         if cls in seen:
             continue
         seen.add(cls)
+        total[cls] = total.get(cls, 0) + 1
+        if total[cls] > 3:       # the failure list is capped: one finding must not crowd out another
+            continue
         ctx.fail(f"C01/roundtrip/{cls}", f"precision {d}: {p}: original {a!r} read back {b!r}", case,
                  detail={"path": p, "kind": kind, "original": a, "read_back": b})
     return before, back
@@ -424,7 +428,7 @@ def run(ctx):
         tags_of(ctx, case["spec"], case["precision"])
         judge(ctx, case["spec"], case["precision"], path)
     gen = G.Gen(ctx.rng)
-    for k in range(ctx.n(130)):
+    for k in range(ctx.n(400)):
         spec = gen.gen_spec()
         for d in precisions_for(ctx, k):
             spec["precision"] = d
@@ -436,9 +440,79 @@ search = run
 
 
 def replay(ctx, case):
+    from common import load_findings
     path = os.path.join(ctx.tmpdir(), "c01.xml")
-    judge(ctx, case["spec"], case["precision"], path)
+    judge(ctx, case["spec"], case["precision"], path, model=False)
+    known = load_findings().get("C01", {})
+    ctx.failures = [f for f in ctx.failures if f.key not in known]     # a recorded finding is not what a replay is about
+
+
+def _fails_with(spec, d, key):
+    from common import Ctx
+    ctx = Ctx("C01", "quick", 0)
+    try:
+        judge(ctx, spec, d, os.path.join(ctx.tmpdir(), "s.xml"), model=False)
+        return any(f.key == key for f in ctx.failures)
+    except Exception:  # noqa
+        return False
+    finally:
+        ctx.close()
+
+
+def _drop_ref(spec, kind, i):
+    for ln in spec["lanelets"]:
+        ln[kind] = [x for x in ln[kind] if x != i]
+        sl = ln["stop_line"]
+        k2 = "sign_refs" if kind == "signs" else "light_refs"
+        if sl and sl[k2] is not None:
+            sl[k2] = [x for x in sl[k2] if x != i] or None
 
 
 def shrink(case, key):
-    return case
+    """greedy: drop obstacles, intersections, lights, signs, extra planning problems / goals, trajectory tails, stop lines"""
+    spec, d = copy.deepcopy(case["spec"]), case["precision"]
+    if not _fails_with(spec, d, key):
+        return case
+
+    def attempt(mutate):
+        nonlocal spec
+        cand = copy.deepcopy(spec)
+        try:
+            mutate(cand)
+        except Exception:  # noqa
+            return False
+        if _fails_with(cand, d, key):
+            spec = cand
+            return True
+        return False
+
+    for name in ("obstacles", "intersections"):
+        i = 0
+        while i < len(spec[name]):
+            if not attempt(lambda c, i=i: c[name].pop(i)):
+                i += 1
+    for name, kind in (("lights", "lights"), ("signs", "signs")):
+        i = 0
+        while i < len(spec[name]):
+            def m(c, i=i):
+                x = c[name].pop(i)
+                _drop_ref(c, kind, x["id"])
+            if not attempt(m):
+                i += 1
+    i = 1
+    while i < len(spec["pps"]):
+        if not attempt(lambda c, i=i: c["pps"].pop(i)):
+            i += 1
+    attempt(lambda c: c["pps"].pop(0) if len(c["pps"]) > 1 else (_ for _ in ()).throw(ValueError()))
+    for k in range(len(spec["lanelets"])):
+        attempt(lambda c, k=k: c["lanelets"][k].update(stop_line=None))
+        attempt(lambda c, k=k: c["lanelets"][k].update(adj_left=None, adj_right=None, pred=[], succ=[]))
+    for k, o in enumerate(spec["obstacles"]):
+        p = o.get("prediction")
+        if p and p["kind"] == "trajectory":
+            attempt(lambda c, k=k: c["obstacles"][k]["prediction"].update(states=c["obstacles"][k]["prediction"]["states"][:1]))
+        elif p:
+            attempt(lambda c, k=k: c["obstacles"][k]["prediction"].update(occupancies=c["obstacles"][k]["prediction"]["occupancies"][:1]))
+        if o.get("signal_series"):
+            attempt(lambda c, k=k: c["obstacles"][k].update(signal_series=None))
+    return {"spec": spec, "precision": d}
